@@ -16,7 +16,7 @@ pub const MAX_ARENAS: usize = 8;
 pub const REDZONE: usize = 64;
 pub const PAGE: usize = 4096;
 /// simulated machine size: anything larger is always refused ("exhaustion")
-pub const MACHINE_BYTES: usize = 1 << 30;
+pub const MACHINE_BYTES: usize = 16 << 20;
 pub const MACHINE_MAX_ALIGN: usize = 1 << 20;
 const QUARANTINE_BUDGET: usize = 512 << 20;
 pub const RETRY_ALARM: u32 = 2_000;
